@@ -944,4 +944,73 @@ theorem sg_addseg_pre {s S s1 : St} (w : WFS s) (hS : S.h = s.h)
     rw [f3 z, c3' z]
     grind
 
+/-- the free headers other than `top` keep their place when the window `[top, foot]` is rewritten -/
+theorem sg_addseg_keep {s : St} (w : WFS s) {E' : List Ent} (hok' : entsOk E' = true) {oe : Nat}
+    {f : Ent} (hfm : f ∈ s.h.ents) (hfa : f.addr = s.h.top + s.h.topsize) (hfp : f.pin = false) (hfe : f.addr + 80 = oe)
+    (hout : ∀ z ∈ s.h.ents, z.addr < s.h.top ∨ z.addr = s.h.top ∨ z = f ∨ oe ≤ z.addr)
+    (hkeep : ∀ z ∈ s.h.ents, (z.addr < s.h.top ∨ oe ≤ z.addr) → z ∈ E') :
+    ∀ a ∈ Dl.freeList s.h, a ≠ s.h.top → findEnt E' a = findEnt s.h.ents a := by
+  intro a ha hne
+  have := ((freeListOk_iff s.h).1 w.freeList).2.2 a ha
+  obtain ⟨e, he, hf⟩ := isFreeAt_iff.1 this
+  obtain ⟨hm, hea⟩ := findEnt_some he
+  have hc : e.addr < s.h.top ∨ oe ≤ e.addr := by
+    rcases hout e hm with h | h | h | h
+    · exact Or.inl h
+    · omega
+    · subst h; simp [isFree, hfp] at hf
+    · exact Or.inr h
+  rw [he, ← hea]
+  exact entsOk_find e (hkeep e hm hc) hok'
+
+/-- the free list after `add_segment`: `top` is the new mapping; the old `top` chunk is binned (`B = [top]`)
+or gone (`B = []`) -/
+theorem sg_addseg_freeListOk {s : St} (w : WFS s) (htn : s.h.top ≠ 0) {H : Heap} (hok' : entsOk H.ents = true)
+    {tbase : Nat} (htb0 : tbase ≠ 0) (hnew : ∀ e ∈ s.h.ents, e.addr ≠ tbase)
+    (htop : H.top = tbase) (hdv : H.dv = s.h.dv) {B : List Nat} (hB : B = [] ∨ B = [s.h.top])
+    (hperm : List.Perm (binned H) (B ++ binned s.h))
+    (hfree : ∀ a, a ∈ freeSet H.ents ↔ a = tbase ∨ a ∈ B ∨ (a ∈ freeSet s.h.ents ∧ a ≠ s.h.top)) :
+    freeListOk H = true := by
+  obtain ⟨hnd0, hmem0⟩ := (freeListOk_iff_set w.ents).1 w.freeList
+  rw [freeList_top htn] at hnd0 hmem0
+  simp only [List.nil_append, List.singleton_append, List.nodup_cons, List.mem_cons] at hnd0 hmem0
+  have hfl : List.Perm (Dl.freeList H) (tbase :: (B ++ ((if s.h.dv = 0 then [] else [s.h.dv]) ++ binned s.h))) := by
+    unfold Dl.freeList
+    rw [htop, hdv, if_neg htb0]
+    simp only [List.singleton_append]
+    refine List.Perm.cons _ ?_
+    refine (List.Perm.append_left _ hperm).trans ?_
+    rw [← List.append_assoc, ← List.append_assoc]
+    exact List.Perm.append_right _ List.perm_append_comm
+  generalize (if s.h.dv = 0 then [] else [s.h.dv]) ++ binned s.h = R at hnd0 hmem0 hfl
+  have hRfree : ∀ a, a ∈ R ↔ (a ∈ freeSet s.h.ents ∧ a ≠ s.h.top) := by
+    intro a
+    have := hmem0 a
+    constructor
+    · intro h
+      exact ⟨this.1 (Or.inr h), fun h' => hnd0.1 (h' ▸ h)⟩
+    · rintro ⟨h1, h2⟩
+      rcases this.2 h1 with h | h
+      · exact absurd h h2
+      · exact h
+  have htbR : tbase ∉ R := by
+    intro h
+    obtain ⟨e, he, _, hea⟩ := mem_freeSet.1 ((hRfree tbase).1 h).1
+    exact hnew e he hea
+  have htop_new : s.h.top ≠ tbase := by
+    intro h
+    obtain ⟨e, he, _, hea⟩ := mem_freeSet.1 ((hmem0 s.h.top).1 (Or.inl rfl))
+    exact hnew e he (by omega)
+  refine (freeListOk_iff_set hok').2 ⟨hfl.nodup_iff.2 ?_, ?_⟩
+  · rcases hB with hB | hB
+    · subst hB
+      simp only [List.nil_append, List.nodup_cons]
+      exact ⟨htbR, hnd0.2⟩
+    · subst hB
+      simp only [List.singleton_append, List.nodup_cons, List.mem_cons, not_or]
+      exact ⟨⟨fun h => htop_new h.symm, htbR⟩, hnd0.1, hnd0.2⟩
+  · intro a
+    rw [hfl.mem_iff, hfree a]
+    simp only [List.mem_cons, List.mem_append, hRfree a]
+
 end TinyVerif.Dl
